@@ -2,24 +2,27 @@ SPECIFICATION Spec
 CONSTANTS
   Lease = 1
   NB = 2
-  Clients = {1, 2}
+  Clients = {}
   Verifs = {1}
   OKeys = {"o1"}
-  LKeys = {"l1"}
-  Names = {"a", "b"}
-  Ops = {"SETCLIENTID", "SETCLIENTID_CONFIRM", "OPEN", "OPEN_CONFIRM", "OPEN_DOWNGRADE", "CLOSE", "READ", "WRITE", "REMOVE"}
-  Shares = {1, 2, 3}
+  LKeys = {}
+  Names = {"a"}
+  Ops = {"OPEN", "OPEN_CONFIRM", "OPEN_DOWNGRADE", "CLOSE", "READ"}
+  Shares = {1, 3}
   Hows = {"UNCHECKED"}
-  SeqDev = {0}
-  SidDev = {0}
+  SeqDev <- DevNone
+  SidDev <- DevNone
   WrongFh = FALSE
-  RangeSet = {}
+  RangeSet <- NoRanges
   LockTypes = {}
   TickSet = {2}
+  PreClients = {1, 2}
+  AnonOps = {}
+  MaxLSeq = 0
   MaxConf = 2
   MaxSid = 2
-  MaxFile = 2
-  MaxSeq = 4
+  MaxFile = 1
+  MaxSeq = 3
   MaxClock = 2
   MaxIO = 1
 CONSTRAINT Bounded
